@@ -94,11 +94,15 @@ class Analysis:
         self.ret_states = []
         self.final = False
         self.bases = {}
+        self.origin = {}       # local key -> the place its value was copied from (for layout sources)
         self._parent_sid = None
         self.reads = []        # integer reads from byte slices (A10)
         self.slices = []       # sub-slices taken (A10)
         self.derived = {}      # symbol -> symbols it was computed from
         self.dispatch = None
+        self.force = None
+        self.emits = []        # bytes written to a writer, in order (A10)
+        self.discr_types = {}  # place key -> type of the enum whose discriminant is switched on
         self.debug = False
         self.pending = {}               # callsite id -> info for Ok-summaries
         self.sw_facts = {}              # (bi) -> description of branch facts (for reports)
@@ -295,6 +299,9 @@ class Analysis:
                     # facts may bound it
                     if entails(st.facts, self.iv, la - r[1], 2) and entails(st.facts, self.iv, Lin.const(r[0]) - la, 2):
                         return a
+                    nm = "trunc%d.%d" % (bi, si)
+                    self.derived[nm] = la
+                    return ("lin", self.sym(nm, r))
                 return None
             if rv["ck"] in ("PointerCoercion", "PtrToPtr", "Transmute", "Subtype"):
                 # &[T; N] -> &[T] and friends keep identity; length comes from the array type
@@ -315,6 +322,7 @@ class Analysis:
             v = st.store.get(key)
             if v is not None and v[0] in ("callres", "branch", "adt"):
                 return ("discr", v)
+            self.discr_types[key] = self.types[rv["pl"]["t"]]
             return ("discr", ("place", key))
         if k == "agg":
             ak = rv["ak"]
@@ -335,7 +343,7 @@ class Analysis:
             if ak in ("closure", "coroutine"):
                 return ("closure", rv["def"], tuple(vals))
             if ak == "array":
-                return ("array", len(vals), tuple(vals))
+                return ("array", len(vals), tuple(vals), tuple(self.src_of(st, o, bi) for o in rv["ops"]))
             return None
         if k == "repeat":
             return ("array", rv["n"], None)
@@ -450,13 +458,18 @@ LEN_LIKE = re.compile(r"(^core::slice::<impl \[T\]>::len$|^std::vec::Vec::<T, A>
                       r"^std::string::String::len$|^std::collections::VecDeque::<T, A>::len$)")
 EMPTY_LIKE = re.compile(r"(^core::slice::<impl \[T\]>::is_empty$|^std::vec::Vec::<T, A>::is_empty$|"
                         r"^core::str::<impl str>::is_empty$|^std::string::String::is_empty$)")
-INT_CONV = re.compile(r"(^core::num::<impl [iu](8|16|32|64|128|size)>::(from_be_bytes|from_le_bytes|from_ne_bytes|from_be|to_be|"
+INT_CONV = re.compile(r"(^core::num::<impl [iu](8|16|32|64|128|size)>::(from_be_bytes|from_le_bytes|from_ne_bytes|to_be_bytes|to_le_bytes|to_ne_bytes|from_be|to_be|"
                       r"from_le|to_le|swap_bytes|reverse_bits|rotate_left|rotate_right|count_ones|count_zeros|leading_zeros|"
                       r"wrapping_add|wrapping_sub|wrapping_mul|saturating_add|saturating_sub|min|max)$)")
 WIDEN = re.compile(r"^std::convert::num::<impl std::convert::From<(u8|u16|u32|u64|bool|i8|i16|i32)> for [iu](8|16|32|64|128|size)>::from$")
 OK_PRESERVING = re.compile(r"^std::result::Result::<T, E>::(map|map_err|inspect|inspect_err)$")
 RECV_FROM = re.compile(r"^(std|tokio)::net::UdpSocket::(recv_from|recv|peek_from|peek)$|^socket2::Socket::(recv|recv_from)$|"
                        r"^<.* as std::io::Read>::read$|^std::io::Read::read$")
+
+
+def _short(s):
+    s = re.sub(r"<.*$", "", s or "")
+    return s.split("::")[-1]
 
 
 def subst(e, s, repl):
@@ -517,6 +530,11 @@ class Analyzer(Analysis):
         saved = None
         if src_key is not None and src_key != key:
             saved = [(k, v) for k, v in st.store.items() if _is_prefix(src_key, k) and k != src_key]
+        if src_key is not None and not key.startswith("(*") and "[" not in src_key:
+            self.origin[key] = self.origin.get(src_key, src_key)
+        elif rv["k"] == "cast" and rv["op"]["o"] in ("copy", "move") and rv["ck"] == "IntToInt":
+            sk = self.key_of(st, rv["op"]["pl"], bi, si)
+            self.origin[key] = self.origin.get(sk, sk)
         self.write(st, key, val)
         if saved:
             for k, v in saved:
@@ -714,6 +732,41 @@ class Analyzer(Analysis):
                 o.detail = "divisor not tracked"
         self.finish_ob(o)
 
+    def src_of(self, st, op, bi):
+        """source description of an operand: the canonical place it was copied from"""
+        if op["o"] == "const":
+            k = op["k"]
+            return ("const", int(k["v"])) if k["c"] == "int" else ("const", None)
+        pl = op["pl"]
+        key = self.key_of(st, pl, bi, -3)
+        return ("place", self.origin.get(key, key))
+
+    def describe_bytes(self, st, v):
+        """what the byte slice handed to write_all consists of"""
+        if v is None:
+            return ("unknown",)
+        if v[0] == "slice":
+            sid = v[1]
+            src = st.store.get("src:" + sid)
+            arr = st.store.get(src[1]) if src is not None else None
+            if arr is not None and arr[0] == "bytes":
+                return ("int", arr[2], arr[3], arr[4])
+            if arr is not None and arr[0] == "array":
+                return ("array", arr[1], arr[3] if len(arr) > 3 else None)
+            if sid in self.bases:
+                root, off = self.root_of(sid)
+                src2 = st.store.get("src:" + root)
+                arr2 = st.store.get(src2[1]) if src2 is not None else None
+                if arr2 is not None and arr2[0] == "bytes":
+                    return ("int-part", arr2[2], arr2[3], arr2[4], off, st.store.get("len:" + sid, (None, None))[1])
+            return ("raw", self.origin.get(sid, sid))
+        if v[0] == "ref":
+            arr = st.store.get(v[1])
+            if arr is not None and arr[0] == "bytes":
+                return ("int", arr[2], arr[3], arr[4])
+            return ("raw", self.origin.get(v[1], v[1]))
+        return ("unknown",)
+
     def dispatch_summary(self, bi):
         """weakest writer summary over the call-graph candidates of a trait-dispatched call in block bi"""
         cands = self.dispatch.get(bi) if self.dispatch else None
@@ -908,6 +961,15 @@ class Analyzer(Analysis):
                     return
                 if la is not None and la.is_const() and name.endswith("::trailing_zeros"):
                     pass
+                m2_ = re.search(r"::(to_be_bytes|to_le_bytes|to_ne_bytes)$", name)
+                if m2_ and vals:
+                    ta_ = self.op_ty(args[0])
+                    self.write(st, dest_key, ("bytes", vals[0], {"to_be_bytes": "BE", "to_le_bytes": "LE", "to_ne_bytes": "NE"}[m2_.group(1)],
+                                              (ta_["w"] // 8) if ta_ and ta_["k"] == "int" else None,
+                                              self.src_of(st, args[0], bi)))
+                    if self.final:
+                        self.events.append(ev)
+                    return
                 if name.endswith(("::to_be", "::from_be", "::to_le", "::from_le")) and dest_ty["k"] == "int" and dest_ty["w"] == 8 and la is not None:
                     result = ("lin", la)
                 elif name.endswith("::min") and len(vals) > 1 and la is not None and self.as_lin(vals[1]) is not None:
@@ -1017,6 +1079,9 @@ class Analyzer(Analysis):
                 ev["writer"] = (K, before)
                 if name.endswith("write_all"):
                     ln = self.slice_len_of_val(st, vals[1], self.op_ty(args[1])) if len(vals) > 1 else None
+                    if self.final:
+                        self.emits.append({"bi": bi, "kind": "bytes", "len": ln, "src": self.describe_bytes(st, vals[1] if len(vals) > 1 else None),
+                                           "sp": sp})
                     after = self.sym("wpos(%s)@%d'" % (K, bi), (0, USIZE_HI))
                     facts = [before - after]
                     if ln is not None:
@@ -1055,6 +1120,32 @@ class Analyzer(Analysis):
                 return
             elif re.search(r"^core::slice::<impl \[T\]>::(iter|iter_mut)$", name) and vals and vals[0] is not None \
                     and vals[0][0] == "slice":
+                result = ("iter", vals[0][1])
+                handled = True
+            elif re.search(r"^<std::vec::Vec<T, A> as std::clone::Clone>::clone$|^std::slice::<impl \[T\]>::to_vec$", name) and vals \
+                    and vals[0] is not None and vals[0][0] in ("ref", "slice"):
+                # a clone has the length (and contents) of its source
+                src_k = vals[0][1]
+                self.havoc_args(st, args, vals, bi)
+                self.write(st, dest_key, None)
+                st.store["len:" + dest_key] = ("lin", self.length_of(st, src_k))
+                self.origin[dest_key] = self.origin.get(src_k, src_k)
+                if self.final:
+                    self.events.append(ev)
+                return
+            elif name == "std::iter::Iterator::map" and len(vals) == 2 and vals[0] is not None and vals[0][0] == "iter" \
+                    and vals[1] is not None and vals[1][0] == "closure":
+                result = ("mapiter", vals[0][1], vals[1][1])
+                handled = True
+            elif name == "std::iter::Iterator::sum" and vals and vals[0] is not None and vals[0][0] == "mapiter":
+                result = ("lin", self.sym("SUM[%s](%s)" % (vals[0][2], self.origin.get(vals[0][1], vals[0][1])), (0, USIZE_HI)))
+                handled = True
+            elif re.search(r"^<&'a std::(vec::Vec|collections::BTreeMap|collections::HashMap|collections::HashSet)<.*> as std::iter::IntoIterator>::into_iter$", name) \
+                    and vals and vals[0] is not None and vals[0][0] == "ref":
+                result = ("iter", vals[0][1])
+                handled = True
+            elif re.search(r"^std::collections::(BTreeMap|HashMap)::<K, V(, S)?, A>::(values|iter|keys)$", name) and vals and vals[0] is not None \
+                    and vals[0][0] == "ref":
                 result = ("iter", vals[0][1])
                 handled = True
             elif name in ("std::iter::Iterator::enumerate",) and vals and vals[0] is not None and vals[0][0] == "iter":
@@ -1175,9 +1266,27 @@ class Analyzer(Analysis):
                 else:
                     for f in facts:
                         st.facts.add(f)
+            recv_key = vals[0][1] if (vals and vals[0] is not None and vals[0][0] == "ref") else None
+            impl_self = (c.get("impl") or {}).get("self") if c.get("impl") else None
+            tshort = _short(impl_self) if impl_self else None
             if writer is not None:
                 wafter = self.sym("wpos(%s)@%d'" % (writer, bi), (0, USIZE_HI))
                 st.store["wpos:" + writer] = ("lin", wafter)
+                if recv_key is not None and (tshort or not c["resolved"]) and self.final is not None:
+                    is_wire_w = bool(c.get("impl") and (c["impl"].get("trait") or "").endswith("wire_format::WireFormat")) or \
+                        (c.get("trait") or "").endswith("wire_format::WireFormat")
+                    if is_wire_w:
+                        nsym = "N[%s](%s)" % (tshort or "dyn " + c["name"], self.origin.get(recv_key, recv_key))
+                    else:
+                        nsym = "H[%s](%s)" % (c["id"], self.origin.get(recv_key, recv_key))
+                    wexact = wbefore + self.sym(nsym, (0, USIZE_HI))
+                    ev["nested_write"] = (tshort, self.origin.get(recv_key, recv_key), c["name"])
+                    if self.final:
+                        self.emits.append({"bi": bi, "kind": "nested", "type": tshort, "recv": self.origin.get(recv_key, recv_key),
+                                           "fn": c["name"], "len": Lin.sym(nsym), "sp": sp, "callee_id": c["id"],
+                                           "compressed": c["name"] == "write_compressed_to" or c["name"] == "compress_append"})
+                else:
+                    wexact = None
                 wf = []
                 wsum = summ
                 if wsum is None and not c["resolved"]:
@@ -1190,6 +1299,8 @@ class Analyzer(Analysis):
                 if is_result:
                     self.pending.setdefault(cs, {"variant_facts": {}})
                     self.pending[cs]["variant_facts"].setdefault(0, []).extend(wf)
+                    if wexact is not None:
+                        self.pending[cs].setdefault("variant_stores", {}).setdefault(0, []).append(("wpos:" + writer, ("lin", wexact)))
                 else:
                     for f in wf:
                         st.facts.add(f)
@@ -1216,6 +1327,19 @@ class Analyzer(Analysis):
                 if okm:
                     self.pending[cs] = {"variant_facts": {1: facts}, "callee": c["id"]}
                     result = ("boolres", cs)
+            if c["name"] == "len" and recv_key is not None and dest_ty["k"] == "int" and c["local"] or \
+                    (c["name"] == "len" and recv_key is not None and dest_ty["k"] == "int" and c["crate"] in ("simple_dns", "simple_mdns")):
+                rk = self.origin.get(recv_key, recv_key)
+                is_wire = bool(c.get("impl") and (c["impl"].get("trait") or "").endswith("wire_format::WireFormat"))
+                if summ and summ.get("ret_lin") is not None and not is_wire:
+                    g = summ["ret_lin"]
+                    for s0 in list(g.syms()):
+                        ns = s0.replace("(*_1)", rk)
+                        if ns != s0:
+                            g = subst(g, s0, self.sym(ns, (0, USIZE_HI)))
+                    result = ("lin", g)
+                else:
+                    result = ("lin", self.sym("N[%s](%s)" % (tshort or ("dyn " + c["name"]), rk), (0, USIZE_HI)))
             if summ and summ.get("ret_iter") and result is None:
                 kind, path = summ["ret_iter"]
                 m = re.match(r"^\(\*_(\d+)\)(.*)$", path)
@@ -1340,6 +1464,10 @@ class Analyzer(Analysis):
                 for v, tgt in arms:
                     out.append((tgt, st.copy()))
                 out.append((t["otherwise"], st.copy()))
+            elif d is not None and d[0] == "discr" and d[1][0] == "place" and self.force and d[1][1] in self.force:
+                want = self.force[d[1][1]]
+                hit = [tgt for v, tgt in arms if v == want]
+                out.append((hit[0] if hit else t["otherwise"], st.copy()))
             else:
                 for v, tgt in arms:
                     out.append((tgt, st.copy()))
